@@ -1,4 +1,8 @@
-use std::sync::{Arc, RwLock};
+use std::sync::Arc;
+#[cfg(not(feature = "verif_hooks"))]
+use std::sync::RwLock;
+#[cfg(feature = "verif_hooks")]
+use crate::verif_hooks::RwLock;
 
 use crate::{
     util::{self, get_significant_uint64_count_uint, BlakeRNG}, polymod,
@@ -649,7 +653,7 @@ impl Decryptor {
     /// Copy of the cached secret-key powers, or `None` while a writer holds the lock.
     #[cfg(feature = "verif_hooks")]
     pub fn verif_cache_snapshot(&self) -> Option<Vec<u64>> {
-        self.secret_key_array.try_read().ok().map(|g| g.clone())
+        self.secret_key_array.verif_peek()
     }
 
     fn compute_secret_key_array(&self, max_power: usize) {
@@ -660,11 +664,7 @@ impl Decryptor {
         let coeff_count = parms.poly_modulus_degree();
 
         // Aquire read lock
-        #[cfg(feature = "verif_hooks")]
-        let _vh_read = crate::verif_hooks::lock_enter(&self.secret_key_array, crate::verif_hooks::LockKind::Read, "decryptor.grow.read");
         let read_lock = self.secret_key_array.read().unwrap();
-        #[cfg(feature = "verif_hooks")]
-        _vh_read.acquired();
         assert!(read_lock.len() % (coeff_count * coeff_modulus_size) == 0);
         let old_size = read_lock.len() / (coeff_count * coeff_modulus_size);
         let new_size = old_size.max(max_power);
@@ -681,8 +681,6 @@ impl Decryptor {
         secret_key_array[..old_size * poly_size].copy_from_slice(&read_lock[..old_size * poly_size]);
         // Drop lock
         drop(read_lock);
-        #[cfg(feature = "verif_hooks")]
-        drop(_vh_read);
         
         // Since all of the key powers in secret_key_array_ are already NTT transformed, to get the next one we simply
         // need to compute a dyadic product of the last one with the first one [which is equal to NTT(secret_key_)].
@@ -699,11 +697,7 @@ impl Decryptor {
         }
 
         // Aquire write lock
-        #[cfg(feature = "verif_hooks")]
-        let _vh_write = crate::verif_hooks::lock_enter(&self.secret_key_array, crate::verif_hooks::LockKind::Write, "decryptor.grow.write");
         let mut write_lock = self.secret_key_array.write().unwrap();
-        #[cfg(feature = "verif_hooks")]
-        _vh_write.acquired();
 
         // Do we still need to update size?
         assert!(secret_key_array.len() % (coeff_count * coeff_modulus_size) == 0);
@@ -735,11 +729,7 @@ impl Decryptor {
         // Make sure we have enough secret key powers computed
         self.compute_secret_key_array(encrypted_size - 1);
 
-        #[cfg(feature = "verif_hooks")]
-        let _vh_use = crate::verif_hooks::lock_enter(&self.secret_key_array, crate::verif_hooks::LockKind::Read, "decryptor.use.read");
         let secret_key_array_binding = self.secret_key_array.read().unwrap();
-        #[cfg(feature = "verif_hooks")]
-        _vh_use.acquired();
         let secret_key_array = secret_key_array_binding.as_ref();
         if encrypted_size == 2 {
             unsafe {
